@@ -24,10 +24,23 @@ import (
 // One goroutine runs at a time; control changes hands only at yield points.
 
 type gor struct {
-	id    int
-	wake  chan struct{}
-	ready func() bool
-	done  bool
+	id      int
+	wake    chan struct{}
+	first   chan struct{} // signalled when the goroutine reaches its first scheduling point
+	started bool
+	ready   func() bool
+	done    bool
+}
+
+// handoff tells whoever is waiting for g (its spawner the first time, the
+// scheduler afterwards) that g stopped running.
+func (g *gor) handoff() {
+	if !g.started {
+		g.started = true
+		g.first <- struct{}{}
+		return
+	}
+	back <- struct{}{}
 }
 
 var (
@@ -49,7 +62,7 @@ func current() *gor { return cur }
 func yield(kind string, ready func() bool) {
 	g := cur
 	g.ready = ready
-	back <- struct{}{}
+	g.handoff()
 	<-g.wake
 }
 
@@ -63,17 +76,24 @@ func choice(def int) int {
 	return q[0]
 }
 
-// Go starts a logical goroutine; it first runs when the scheduler picks it.
+// Go starts a logical goroutine. It runs at once up to its first scheduling
+// point (code before that touches no shared state), while the spawner
+// waits; from then on it runs only when the scheduler picks it. This matches
+// the model, whose first transition of a goroutine ends at (and includes)
+// its first visible operation.
 func Go(f func()) {
-	g := &gor{id: len(gs), wake: make(chan struct{})}
+	g := &gor{id: len(gs), wake: make(chan struct{}), first: make(chan struct{})}
 	g.ready = func() bool { return true }
 	gs = append(gs, g)
+	spawner := cur
+	cur = g
 	go func() {
-		<-g.wake
 		f()
 		g.done = true
-		back <- struct{}{}
+		g.handoff()
 	}()
+	<-g.first // the child reached its first scheduling point (or finished)
+	cur = spawner
 }
 
 // Run executes main as goroutine 0 under the schedule.
@@ -211,6 +231,14 @@ func (m *Map) Load(k any) (any, bool) {
 	return v, ok
 }
 
+func (m *Map) Store(k, v any) {
+	Yield()
+	if m.m == nil {
+		m.m = map[any]any{}
+	}
+	m.m[k] = v
+}
+
 func (m *Map) LoadOrStore(k, v any) (any, bool) {
 	Yield()
 	if m.m == nil {
@@ -332,7 +360,7 @@ def rewrite_work(src):
     out = re.sub(r'\bgo (\w+(?:\.\w+)*)\(\)', r'vsync.Go(\1)', out)
     return out
 
-INSTRUMENTED_CALLS = ('(*sync.Mutex).Lock', '(*sync.Cond).Wait', '(*sync.Map).Load', '(*sync.Map).LoadOrStore',
+INSTRUMENTED_CALLS = ('(*sync.Mutex).Lock', '(*sync.Cond).Wait', '(*sync.Map).Load', '(*sync.Map).LoadOrStore', '(*sync.Map).Store',
                       'sync/atomic.LoadUint32', 'sync/atomic.StoreUint32', 'vYield')
 
 def schedule_for_shim(v):
